@@ -344,6 +344,15 @@ func loadFindings() []knownFinding {
 	return f.Findings
 }
 
+// RepoDir is the source tree the CLI is built from: /repo, unless VERIF_REPO names a scratch worktree (used only to
+// evaluate seeded changes without touching /repo; registered commands never set it).
+var RepoDir = func() string {
+	if d := os.Getenv("VERIF_REPO"); d != "" {
+		return d
+	}
+	return "/repo"
+}()
+
 // Main is the entry point of every harness binary.
 func Main(cfg Config) {
 	var (
